@@ -2,7 +2,7 @@
 PROP = {
     "lean_modules": ["ConduitModel.Props.C02", "ConduitModel.Facts.C02"],
     "jobs": [
-        {"harness": "h_srcack", "comp": "srcack", "driver": "srcack", "n_quick": 400, "n_thorough": 12000, "timeout": 2400,
+        {"harness": "h_srcack", "comp": "srcack", "driver": "srcack", "n_quick": 400, "n_thorough": 5000, "timeout": 2400,
          "relevant": lambda case: "fail:" in case["model"] or case["impl"] != "ok",
          "why": "a trace recorded from the real connector.Source + Persister (fault-injecting snapshotting store, fake plugin "
                 "stream) is not accepted by the M3 model whose every run satisfies C02, or the C02 monitor fails on it"},
